@@ -233,29 +233,30 @@ def run(ctx: Ctx):
                         "AvpDecodeError (a malformed optional AVP becomes None instead of making "
                         "the whole request undecodable, i.e. dropped as garbage and never answered)",
              floor=3)
-    asg = model.func("message.commands._attributes", "assign_attr_from_defs")
-    ctx.use(asg)
-    par = A.parents(asg.node)
-    k = 0
-    for n in A.walk_no_nested(asg.node):
-        if isinstance(n, ast.Attribute) and n.attr == "value" and isinstance(n.ctx, ast.Load):
-            k += 1
-            cons = f"assign_attr_from_defs:value-read#{k}"
-            ctx.inst(cons)
-            x, ok = n, False
-            while x in par:
-                px = par[x]
-                if isinstance(px, ast.Try) and any(x is b for b in px.body):
-                    for h in px.handlers:
-                        if any(E.is_sub("AvpDecodeError", t) for t in E.handler_types(h)):
-                            ok = True
-                x = px
-            if not ok:
-                ctx.fail("assign_attr_from_defs:value-read", asg.loc(n),
-                         f"`{ast.unparse(par.get(n, n))[:70]}` reads an AVP value outside try/except "
-                         f"AvpDecodeError: one malformed optional (e.g. Grouped) AVP makes "
-                         f"Message.from_bytes raise, the reader discards the frame as garbage and a "
-                         f"request that carries every required AVP is neither delivered nor answered")
+    um_ = model.cls("message._base", "UndefinedMessage").methods.get("_assign_attr_values")
+    for asg in [model.func("message.commands._attributes", "assign_attr_from_defs")] + ([um_] if um_ else []):
+      ctx.use(asg)
+      par = A.parents(asg.node)
+      k = 0
+      for n in A.walk_no_nested(asg.node):
+          if isinstance(n, ast.Attribute) and n.attr == "value" and isinstance(n.ctx, ast.Load):
+              k += 1
+              cons = f"{asg.name}:value-read#{k}"
+              ctx.inst(cons)
+              x, ok = n, False
+              while x in par:
+                  px = par[x]
+                  if isinstance(px, ast.Try) and any(x is b for b in px.body):
+                      for h in px.handlers:
+                          if any(E.is_sub("AvpDecodeError", t) for t in E.handler_types(h)):
+                              ok = True
+                  x = px
+              if not ok:
+                  ctx.fail(f"{asg.name}:value-read", asg.loc(n),
+                           f"`{ast.unparse(par.get(n, n))[:70]}` reads an AVP value outside try/except "
+                           f"AvpDecodeError: one malformed optional (e.g. Grouped) AVP makes "
+                           f"Message.from_bytes raise, the reader discards the frame as garbage and a "
+                           f"request that carries every required AVP is neither delivered nor answered")
     from .common_node import identity_semantics
     identity_semantics(ctx, "C08-R7")
     from . import c20
